@@ -200,7 +200,26 @@ pub fn c12(t: &dyn TypeOps, cx: &mut Cx) {
         let want = t.val(i);
         let bytes = match t.ser(i) { Out::Ok((b, _)) => b, _ => { cx.outcome("skipped-unserializable"); continue; } };
         let enc = encode(&ty, &want, t.type_name());
-        if !masked_eq(&bytes, &enc.bytes, &enc.mask) { cx.outcome("skipped-bytes-differ-from-model"); continue; }
+        if !masked_eq(&bytes, &enc.bytes, &enc.mask) {
+            // the stream is not the reference stream (C06's business); the placement arithmetic
+            // of the model does not apply, but the outcome classes still do: the value or an
+            // alignment error, and the value at a fully aligned base
+            cx.outcome("model-free-sweep");
+            let mut arena = Arena::new(bytes.len() + 4096);
+            for r in 0..128usize {
+                cx.evals += 1;
+                let placed = arena.place(r, &bytes);
+                match t.eps(placed) {
+                    Out::Ok((got, spans)) => {
+                        if got != want { cx.violate("placed-wrong-value", json!({"value": vdesc(i, &want), "residue": r, "observed": format!("{:?}", got)})); }
+                        for s in &spans { if s.elem_align > 0 && s.addr % s.elem_align != 0 { cx.violate("misaligned-reference", json!({"value": vdesc(i, &want), "residue": r, "span": format!("{:?}", s)})); } }
+                    }
+                    Out::Err(e) if e == "AlignmentError" && r % 64 != 0 => {}
+                    o => cx.violate(&format!("placement-{}", o.class()), json!({"value": vdesc(i, &want), "residue": r, "observed": o.describe()})),
+                }
+            }
+            continue;
+        }
         let mut arena = Arena::new(bytes.len() + 4096);
         // blocks the reader encounters: (offset, unit); zero-sized leaves count as unit 1
         let blocks: Vec<(usize, usize)> = enc.events.iter().filter_map(|e| if let Ev::Block { off, unit, .. } = e { Some((*off, (*unit).max(1))) } else { None }).collect();
@@ -465,14 +484,16 @@ pub fn c15(t: &dyn TypeOps, cx: &mut Cx) {
         let tags: Vec<&Ev> = enc.events.iter().filter(|e| matches!(e, Ev::Tag8 { .. } | Ev::TagUsize { .. })).collect();
         if tags.is_empty() { continue; }
         let bytes = match t.ser(i) { Out::Ok((b, _)) => b, _ => { cx.outcome("skipped-unserializable"); continue; } };
-        if !masked_eq(&bytes, &enc.bytes, &enc.mask) { cx.outcome("skipped-bytes-differ-from-model"); continue; }
         if bytes.len() + 64 > arena.cap() { arena = Arena::new(bytes.len() * 2); }
         cx.case(case_hash(cx, &want), true);
         cx.evals += 1;
+        // (a) every variant is mapped back to itself, whatever tag the writer chose
         match both(t, &bytes, &mut arena) {
             (Out::Ok(f), Out::Ok(e)) if f == want && e == want => cx.outcome("variant-roundtrip-ok"),
             (f, e) => cx.violate("variant-not-mapped-back", json!({"value": vdesc(i, &want), "full": f.describe(), "eps": e.describe()})),
         }
+        // (b) foreign tags: needs the tag offsets of the model trace, hence a conforming stream
+        if !masked_eq(&bytes, &enc.bytes, &enc.mask) { cx.outcome("foreign-tags-skipped-bytes-differ-from-model"); continue; }
         if budget == 0 { continue; }
         budget -= 1;
         for tg in &tags {
